@@ -544,6 +544,17 @@ func profileC05Sub() qProfile {
 	p.name = "C05sub"
 	p.backends = []string{"sqlite", "memory"}
 	p.subMs = true
+	// a consumer polling faster than the sweep granularity: the expired lease must still be released
+	// no later than 10 ms after its deadline, however often dequeue is called in between
+	poll := []QOp{motifEnq, {K: "deq", Route: "/a", N: 1, TTLMs: 20}}
+	for i := 0; i < 9; i++ {
+		poll = append(poll, QOp{K: "adv", Ms: 5}, QOp{K: "deq", Route: "/a", N: 1, TTLMs: 30000})
+	}
+	poll2 := []QOp{motifEnq, motifEnq2, {K: "deq", Route: "/a", N: 1, TTLMs: 10}}
+	for i := 0; i < 12; i++ {
+		poll2 = append(poll2, QOp{K: "adv", Ms: 3}, QOp{K: "deq", Route: "/b", N: 1}, QOp{K: "adv", Ms: 4}, QOp{K: "deq", Route: "/a", N: 5, TTLMs: 30000})
+	}
+	p.motifs = append(append([][]QOp(nil), p.motifs...), poll, poll2)
 	return p
 }
 
